@@ -196,6 +196,37 @@ def run_integrate_case(ctx, rng, model=True):
     ctx.case_done(signature=("integrate", tuple(rate), mode))
 
 
+def mixed_sharing(ctx, case):
+    """Hybrid plants with two or more PTI/PTOs: one of them shares the bus load (mode 0) at the step where another carries
+    its shaft alone (full PTI) and is given its power (mode 1) at some other step of the same series - a step's figures
+    may not depend on what the machine does at the other steps (seeded change C11-r6: the decision to balance the shaft
+    lines again was taken on the whole mode series at once)."""
+    if case["kind"] != "hybrid" or case["inputs"]["n"] < 2:
+        return
+    ptis = [c for c in case["spec"]["electric"] if c["kind"] == "pti_pto"]
+    rng = np.random.default_rng(case["idx"] + 4711)
+    if len(ptis) < 2 or rng.random() < 0.3 or case["inputs"].get("mech_flags", {}).get("pti_power_single"):
+        return
+    n, inp = case["inputs"]["n"], case["inputs"]
+    k = int(rng.integers(len(ptis)))
+    sharing, other = ptis[k], ptis[(k + 1) % len(ptis)]
+    full = inp["mech"][other["name"]]["full"]
+    if not any(full):
+        full[int(rng.integers(n))] = True
+    t = full.index(True)
+    mode = [1.0] * n
+    mode[t] = 0.0
+    for u in range(n):
+        if u != t and rng.random() < 0.3:
+            mode[u] = 0.0
+    if all(m == 0.0 for m in mode):
+        mode[(t + 1) % n] = 1.0
+    inp["comp"][sharing["name"]]["mode"] = mode
+    inp["mech"][sharing["name"]]["full"] = [False] * n
+    case["mixed_sharing"] = sharing["name"]
+    ctx.count("hybrid_pti_mode_series", "mixed 0/1 with another machine in full PTI")
+
+
 CORPUS = core.VERIF / "corpus" / "C11"
 
 
@@ -213,6 +244,8 @@ def run(ctx):
     ncorp = len(cases)
     for i in range(ctx.n(80, 1200)):
         cases.append(R.gen_plant_case(ctx.rng, i, n=int(ctx.rng.choice([2, 3, 5, 8]))))
+    for case in cases[ncorp:]:
+        mixed_sharing(ctx, case)
     for ci, case in enumerate(cases):
         ok = run_plant_case(ctx, case)
         sig = (case["kind"], case["inputs"]["n"], json.dumps([(c["kind"]) for c in case["spec"].get("electric", []) + case["spec"].get("mechanical", [])]))
